@@ -7,7 +7,13 @@ let show_zlist l = show_list show_z l
 let dsha = oracle "dsha256"
 let show_dec3 ((h, d), sp) = "(" ^ show_str h ^ " " ^ show_zlist d ^ " " ^ show_z sp ^ ")"
 let show_parse (((h, v), b), sp) = "(" ^ show_str h ^ " " ^ show_z v ^ " " ^ show_bytes b ^ " " ^ show_z sp ^ ")"
+let grs = oracle "groestl"
+let show_presult = function
+  | RBytes v -> show_option show_bytes v
+  | RBech v -> show_option show_parse v
+  | RNone -> "N"
 let dispatch f args = match f, args with
+  | "history", [s; ops] -> show_list show_presult (c11_history dsha grs (arg_str s) (arg_zlist ops))
   | "to_long", [b; s] -> show_outcome (show_pair show_z show_z) (c11_to_long (arg_z b) (arg_bytes s))
   | "from_long", [v; p; b] -> show_outcome show_bytes (c11_from_long (arg_z v) (arg_z p) (arg_z b))
   | "b2a_base58", [s] -> show_outcome show_str (btc_b2a_base58 (arg_bytes s))
